@@ -164,9 +164,9 @@ def check(ctx):
     ctx.ob("SIB.eq-hash.eq", eq or gn.node, "GraphNode.__eq__: same type and same token", ok)
     task = model.klass(TS, "Task")
     h = task.own_methods.get("__hash__")
-    ok = h is not None and any(Pat("hash(self._get_token())").match(r.value) is not None for r in returns(h))
+    ok = h is not None and (all(Pat("hash(self._get_token())").match(r.value) is not None for r in returns(h)) and bool(returns(h)))
     t2 = task.own_methods.get("__dask_tokenize__")
-    ok = ok and t2 is not None and any(Pat("self._get_token()").match(r.value) is not None for r in returns(t2))
+    ok = ok and t2 is not None and (all(Pat("self._get_token()").match(r.value) is not None for r in returns(t2)) and bool(returns(t2)))
     ctx.ob("SIB.eq-hash.hash", h or task.node, "Task.__hash__ and __dask_tokenize__ use the same token", ok)
     gt = task.own_methods.get("_get_token")
     ok = False
